@@ -712,14 +712,21 @@ class SemanticErrorChecker:
         Returns:
             True if the Counting Loop statement is valid.
         """
+        limit_valid = True
+        if isinstance(counting_loop.limit, list):
+            limit_valid = self.check_attribute_access(counting_loop.limit, counting_loop.context, task)
+            if limit_valid and not self.expression_is_number(counting_loop.limit, task):
+                error_msg = "The limit of a counting loop has to be a number"
+                self.error_handler.print_error(error_msg, context=counting_loop.context)
+                limit_valid = False
         if counting_loop.parallel:
             if len(counting_loop.statements) == 1 and isinstance(counting_loop.statements[0], TaskCall):
-                return self.check_task_call(counting_loop.statements[0], task)
+                return self.check_task_call(counting_loop.statements[0], task) and limit_valid
             error_msg = "Only a single task is allowed in a parallel loop statement!"
             self.error_handler.print_error(error_msg, context=counting_loop.context)
             return False
         else:
-            valid = True
+            valid = limit_valid
             for statement in counting_loop.statements:
                 if not self.check_statement(statement, task):
                     valid = False
